@@ -18,11 +18,10 @@ def IsIf : Stmt → Prop
   | _ => False
 
 /-- statements as the facade builds them: the branches of an `if`/`implies` are scopes, an
-    `else` branch is a scope or a chained `if`; a soft expression is 1 bit wide when it is
-    assumed as it stands (soft pass; else F18) -/
+    `else` branch is a scope or a chained `if` -/
 def WFStmt (soft : Bool) : Stmt → Prop
   | .expr e => WF Γ e
-  | .soft e => WF Γ e ∧ (soft = true → cw Γ e 0 = 1)
+  | .soft e => WF Γ e
   | .unique es => ∀ e ∈ es, WF Γ e
   | .nil => True
   | .cons s rest => WFStmt soft s ∧ WFStmt soft rest ∧ IsScope rest
@@ -264,15 +263,7 @@ theorem stmt_scope_sound (σ : Nat → Nat) (hσ : Agree Γ ρ σ) (soft : Bool)
     | false => simp [StmtOk, lowerStmt, mholds]
     | true =>
       simp only [StmtOk, lowerStmt, mholds, if_true]
-      have h1 := lower_sound Γ ρ σ hσ e 0 h.1
-      have hc := h.2 rfl
-      rw [h1, hc]
-      have hlt := eval_lt σ _ _ _ h1
-      rw [hc] at hlt
-      congr 2
-      simp only [truthy]
-      have : sval Γ ρ e 0 = 0 ∨ sval Γ ρ e 0 = 1 := by omega
-      rcases this with h0 | h0 <;> simp [h0, b2n]
+      exact cond_eval Γ ρ σ hσ e h
   | unique es =>
     intro h
     refine ⟨?_, fun hs => by simp [IsScope] at hs⟩
